@@ -21,13 +21,16 @@ from vf.runner import Violation
 
 EPS = np.finfo(np.float64).eps
 FD = EPS ** 0.5
-# Monotone trace: each accepted step satisfies Armijo's rule reduction >= -c1*g.dx >= 0, the objective at the new point is
-# recomputed from the same residual vector, so the trace must be non-increasing up to the rounding of y - ynew
-# (one subtraction): allow 4 eps*|y|.
-K_MONO = 4
-# Linear problems: gap to the bounded global optimum relative to (f* + |b|^2 eps-scale).  lsq_linear(tol=1e-12) and the
-# solver under test (gtol=1e-8 on the free gradient) leave f - f* <= ~|g_free|^2/(2 sigma_min^2); calibrated: worst
-# observed relative gap on seeds 1-3 quick / 1 thorough ~2e-9 for cond(A) <= 1e4.  LIN_RTOL = 1e-6 (>=100x).
+# Monotone trace: each accepted step satisfies Armijo's rule, reduction = y - ynew >= -c1*(g.dx) >= 0, and the logged
+# objective of the next iterate is norm.value of the very residual vector that passed the test, so the logged objectives
+# must be non-increasing EXACTLY (bit level; no tolerance).  Observed on the unchanged tree: never an increase in
+# 100k thorough problems.  (A tolerance of a few ulp would hide e.g. returning the last rejected candidate.)
+K_MONO = 0
+# Linear problems: gap (f - f*) relative to (f* + |b|^2/2).  lsq_linear(tol=1e-13) vs the solver under test (gtol=1e-8 on
+# the free gradient, cond(A) <= 1e4 by construction): f - f* <= ~|g_free|^2/(2 sigma_min^2) ~ 1e-16*cond^2/|A|^2, i.e.
+# <= ~1e-9 relative in the worst generated case; worst observed 1.1e-11 (thorough, 101k problems, seed 1) and 2e-16
+# (quick seeds 1-3).  LIN_RTOL = 1e-7: >= 100x the analytical worst case, ~1e4x the observed one.
+LIN_RTOL = 1e-7 (>=100x).
 LIN_RTOL = 1e-6
 
 
@@ -211,7 +214,10 @@ def main(ck):
     msg = out.getvalue()
     status = msg.split('iterations:')[-1].split(' y:')[0].strip() if 'iterations:' in msg else '?'
     labels.append('status:' + status)
-    f = lambda z: 0.5 * float(np.sum(res(np.asarray(z, dtype=np.float64).reshape(n, 1)) ** 2))
+    # objective exactly as documented for the default norm (Quadratic.value: 0.5 * r^T r), evaluated with the same
+    # expression as the solver so that comparisons between objectives can be exact (a different summation order differs
+    # in the last bit, which showed up as a false alarm in a box 1e-8 wide)
+    f = lambda z: 0.5 * (lambda r: (r.T @ r).item())(res(np.asarray(z, dtype=np.float64).reshape(n, 1)))
     # ---- bounds
     slack = np.zeros(n)
     if lo is not None:
@@ -259,7 +265,7 @@ def main(ck):
       raise Violation('first trace candidate is not clip(x0)', bucket='trace-first')
     for t in trace:
       ft = f(np.asarray(t.candidate).ravel())
-      if abs(ft - float(t.objective)) > 64 * EPS * max(abs(ft), 1e-300):
+      if ft != float(t.objective):        # same expression, same residual vector: exact
         raise Violation('trace objective %r is not the objective %r at its candidate' % (float(t.objective), ft), bucket='trace-consistent')
     # ---- linear: global optimum
     active = False
